@@ -1,21 +1,39 @@
-/- Bridge: IntType/UintType arithmetic regenerated from celtypes.py equals the hand-written model. -/
+/- Bridge: IntType/UintType arithmetic regenerated from celtypes.py equals the hand-written model.
+
+   The proofs are about the semantic content, not the spelling of the source: the range checks are proved
+   by splitting every `if` and calling `omega` (so `lo <= r < hi`, `lo <= r and r < hi`, a guard clause with
+   the negated test, `r < lo or r >= hi`, named constants, boolean locals and inlined helpers all pass, and
+   a wrong bound does not); the dunders first by `simp` + `ac_rfl`, then (`full_bridge`) by unfolding every
+   primitive, splitting and `omega`. -/
 import Cel.Gen.Num
 namespace Cel.Bridge
 open Cel
 
+@[simp] theorem ok_bind {α β} (a : α) (f : α → PyM β) : (Except.ok a >>= f) = f a := rfl
+theorem num_error_bind {α β} (e : Exc) (f : α → PyM β) : ((Except.error e : PyM α) >>= f) = .error e := rfl
+theorem num_pure_ok {α} (a : α) : (pure a : PyM α) = .ok a := rfl
+theorem num_throw_error {α} (e : Exc) : (throw e : PyM α) = .error e := rfl
+
+/-- range-check bridges: unfold both sides (helpers are `@[simp]`), split every `if`, and let `omega`
+decide the integer conditions — independent of how the source spells the test -/
+macro "range_bridge" : tactic =>
+  `(tactic| (
+      try simp [num_pure_ok, num_throw_error, num_error_bind]
+      try simp only [num_pure_ok, num_throw_error, ok_bind, num_error_bind, decide_eq_true_eq, bind_pure]
+      repeat' split
+      all_goals first
+        | rfl
+        | (exfalso; omega)
+        | (simp_all <;> omega)))
+
 theorem int64_eq : Gen.int64 = int64 := by
   funext z
   unfold Gen.int64 int64
-  by_cases h : -(2:Int)^63 ≤ z ∧ z < (2:Int)^63
-  · rw [if_pos h, if_pos h]; rfl
-  · rw [if_neg h, if_neg h]; rfl
+  range_bridge
 theorem uint64_eq : Gen.uint64 = uint64 := by
   funext z
   unfold Gen.uint64 uint64
-  by_cases h : (0:Int) ≤ z ∧ z < (2:Int)^64
-  · rw [if_pos h, if_pos h]; rfl
-  · rw [if_neg h, if_neg h]; rfl
-
+  range_bridge
 /-- closes what `simp` leaves when the source was rewritten harmlessly (commuted factors, …) -/
 macro "bridge_finish" : tactic =>
   `(tactic| try (first
@@ -23,80 +41,120 @@ macro "bridge_finish" : tactic =>
       | ac_rfl
       | (congr 1; funext _; first | rfl | ac_rfl | (congr 1; ac_rfl) | (congr 2; ac_rfl))))
 
-@[simp] theorem ok_bind {α β} (a : α) (f : α → PyM β) : (Except.ok a >>= f) = f a := rfl
 theorem int64_zero : int64 0 = .ok 0 := by simp [int64]
+
+theorem num_ite_bind {α β} (c : Prop) [Decidable c] (x y : PyM α) (f : α → PyM β) :
+    ((if c then x else y) >>= f) = if c then x >>= f else y >>= f := by split <;> rfl
+theorem num_ok_inj {a b : Int} (h : a = b) : (Except.ok a : PyM Int) = .ok b := by rw [h]
+
+/-- second line of defence for the dunder bridges: unfold every primitive of the model, push the binds
+through the `if`s, split every `if` on both sides and let `omega` settle the (then linear) arithmetic —
+independent of statement order, hoisted locals, `if` statements vs. conditional expressions, commuted
+or re-associated factors -/
+macro "full_bridge" : tactic =>
+  `(tactic| (
+      repeat' (first
+        | rfl
+        | split
+        | (simp only [int64, uint64, pyFloorDiv, pyMod, pySign, pyAbs, num_ite_bind, ok_bind, num_error_bind, num_pure_ok,
+            num_throw_error, decide_eq_true_eq, bind_assoc, bind_pure]))
+      all_goals first
+        | (exfalso; omega)
+        | (apply num_ok_inj; omega)
+        | (simp_all <;> omega)))
 
 section Int
 open IntOps
 theorem int_neg (a : Int) : Gen.IntType.neg a = neg a := by
-  simp [Gen.IntType.neg, neg, wrap, int64_eq]
-  bridge_finish
+  first
+    | (simp [Gen.IntType.neg, neg, wrap, int64_eq]; bridge_finish; done)
+    | (simp only [Gen.IntType.neg, neg, wrap, int64_eq, uint64_eq]; full_bridge)
 theorem int_add (a b : Int) : Gen.IntType.add a b = add a b := by
-  simp [Gen.IntType.add, add, wrap, int64_eq]
-  bridge_finish
+  first
+    | (simp [Gen.IntType.add, add, wrap, int64_eq]; bridge_finish; done)
+    | (simp only [Gen.IntType.add, add, wrap, int64_eq, uint64_eq]; full_bridge)
 theorem int_sub (a b : Int) : Gen.IntType.sub a b = sub a b := by
-  simp [Gen.IntType.sub, sub, wrap, int64_eq]
-  bridge_finish
+  first
+    | (simp [Gen.IntType.sub, sub, wrap, int64_eq]; bridge_finish; done)
+    | (simp only [Gen.IntType.sub, sub, wrap, int64_eq, uint64_eq]; full_bridge)
 theorem int_mul (a b : Int) : Gen.IntType.mul a b = mul a b := by
-  simp [Gen.IntType.mul, mul, wrap, int64_eq]
-  bridge_finish
+  first
+    | (simp [Gen.IntType.mul, mul, wrap, int64_eq]; bridge_finish; done)
+    | (simp only [Gen.IntType.mul, mul, wrap, int64_eq, uint64_eq]; full_bridge)
 theorem int_truediv (a b : Int) : Gen.IntType.truediv a b = truediv a b := by
-  simp [Gen.IntType.truediv, truediv, wrap, int64_eq, int64_zero, pySign, bind_assoc]
-  bridge_finish
+  first
+    | (simp [Gen.IntType.truediv, truediv, wrap, int64_eq, int64_zero, pySign, bind_assoc]; bridge_finish; done)
+    | (simp only [Gen.IntType.truediv, truediv, wrap, int64_eq, uint64_eq]; full_bridge)
 theorem int_mod (a b : Int) : Gen.IntType.mod a b = mod a b := by
-  simp [Gen.IntType.mod, mod, wrap, int64_eq, int64_zero, pySign, bind_assoc]
-  bridge_finish
+  first
+    | (simp [Gen.IntType.mod, mod, wrap, int64_eq, int64_zero, pySign, bind_assoc]; bridge_finish; done)
+    | (simp only [Gen.IntType.mod, mod, wrap, int64_eq, uint64_eq]; full_bridge)
 theorem int_radd (a b : Int) : Gen.IntType.radd a b = radd a b := by
-  simp [Gen.IntType.radd, radd, wrap, int64_eq]
-  bridge_finish
+  first
+    | (simp [Gen.IntType.radd, radd, wrap, int64_eq]; bridge_finish; done)
+    | (simp only [Gen.IntType.radd, radd, wrap, int64_eq, uint64_eq]; full_bridge)
 theorem int_rsub (a b : Int) : Gen.IntType.rsub a b = rsub a b := by
-  simp [Gen.IntType.rsub, rsub, wrap, int64_eq]
-  bridge_finish
+  first
+    | (simp [Gen.IntType.rsub, rsub, wrap, int64_eq]; bridge_finish; done)
+    | (simp only [Gen.IntType.rsub, rsub, wrap, int64_eq, uint64_eq]; full_bridge)
 theorem int_rmul (a b : Int) : Gen.IntType.rmul a b = rmul a b := by
-  simp [Gen.IntType.rmul, rmul, wrap, int64_eq]
-  bridge_finish
+  first
+    | (simp [Gen.IntType.rmul, rmul, wrap, int64_eq]; bridge_finish; done)
+    | (simp only [Gen.IntType.rmul, rmul, wrap, int64_eq, uint64_eq]; full_bridge)
 theorem int_rtruediv (a b : Int) : Gen.IntType.rtruediv a b = rtruediv a b := by
-  simp [Gen.IntType.rtruediv, rtruediv, wrap, int64_eq, int64_zero, pySign, bind_assoc]
-  bridge_finish
+  first
+    | (simp [Gen.IntType.rtruediv, rtruediv, wrap, int64_eq, int64_zero, pySign, bind_assoc]; bridge_finish; done)
+    | (simp only [Gen.IntType.rtruediv, rtruediv, wrap, int64_eq, uint64_eq]; full_bridge)
 theorem int_rmod (a b : Int) : Gen.IntType.rmod a b = rmod a b := by
-  simp [Gen.IntType.rmod, rmod, wrap, int64_eq, int64_zero, pySign, bind_assoc]
-  bridge_finish
+  first
+    | (simp [Gen.IntType.rmod, rmod, wrap, int64_eq, int64_zero, pySign, bind_assoc]; bridge_finish; done)
+    | (simp only [Gen.IntType.rmod, rmod, wrap, int64_eq, uint64_eq]; full_bridge)
 end Int
 
 section Uint
 open UintOps
 theorem uint_neg (a : Int) : Gen.UintType.neg a = neg a := by
-  simp [Gen.UintType.neg, neg]; rfl
+  first | rfl | (simp [Gen.UintType.neg, neg]; rfl) | (simp [Gen.UintType.neg, neg, num_throw_error]; done)
 theorem uint_add (a b : Int) : Gen.UintType.add a b = add a b := by
-  simp [Gen.UintType.add, add, wrap, uint64_eq]
-  bridge_finish
+  first
+    | (simp [Gen.UintType.add, add, wrap, uint64_eq]; bridge_finish; done)
+    | (simp only [Gen.UintType.add, add, wrap, int64_eq, uint64_eq]; full_bridge)
 theorem uint_sub (a b : Int) : Gen.UintType.sub a b = sub a b := by
-  simp [Gen.UintType.sub, sub, wrap, uint64_eq]
-  bridge_finish
+  first
+    | (simp [Gen.UintType.sub, sub, wrap, uint64_eq]; bridge_finish; done)
+    | (simp only [Gen.UintType.sub, sub, wrap, int64_eq, uint64_eq]; full_bridge)
 theorem uint_mul (a b : Int) : Gen.UintType.mul a b = mul a b := by
-  simp [Gen.UintType.mul, mul, wrap, uint64_eq]
-  bridge_finish
+  first
+    | (simp [Gen.UintType.mul, mul, wrap, uint64_eq]; bridge_finish; done)
+    | (simp only [Gen.UintType.mul, mul, wrap, int64_eq, uint64_eq]; full_bridge)
 theorem uint_truediv (a b : Int) : Gen.UintType.truediv a b = truediv a b := by
-  simp [Gen.UintType.truediv, truediv, wrap, uint64_eq, bind_assoc]
-  bridge_finish
+  first
+    | (simp [Gen.UintType.truediv, truediv, wrap, uint64_eq, bind_assoc]; bridge_finish; done)
+    | (simp only [Gen.UintType.truediv, truediv, wrap, int64_eq, uint64_eq]; full_bridge)
 theorem uint_mod (a b : Int) : Gen.UintType.mod a b = mod a b := by
-  simp [Gen.UintType.mod, mod, wrap, uint64_eq, bind_assoc]
-  bridge_finish
+  first
+    | (simp [Gen.UintType.mod, mod, wrap, uint64_eq, bind_assoc]; bridge_finish; done)
+    | (simp only [Gen.UintType.mod, mod, wrap, int64_eq, uint64_eq]; full_bridge)
 theorem uint_radd (a b : Int) : Gen.UintType.radd a b = radd a b := by
-  simp [Gen.UintType.radd, radd, wrap, uint64_eq]
-  bridge_finish
+  first
+    | (simp [Gen.UintType.radd, radd, wrap, uint64_eq]; bridge_finish; done)
+    | (simp only [Gen.UintType.radd, radd, wrap, int64_eq, uint64_eq]; full_bridge)
 theorem uint_rsub (a b : Int) : Gen.UintType.rsub a b = rsub a b := by
-  simp [Gen.UintType.rsub, rsub, wrap, uint64_eq]
-  bridge_finish
+  first
+    | (simp [Gen.UintType.rsub, rsub, wrap, uint64_eq]; bridge_finish; done)
+    | (simp only [Gen.UintType.rsub, rsub, wrap, int64_eq, uint64_eq]; full_bridge)
 theorem uint_rmul (a b : Int) : Gen.UintType.rmul a b = rmul a b := by
-  simp [Gen.UintType.rmul, rmul, wrap, uint64_eq]
-  bridge_finish
+  first
+    | (simp [Gen.UintType.rmul, rmul, wrap, uint64_eq]; bridge_finish; done)
+    | (simp only [Gen.UintType.rmul, rmul, wrap, int64_eq, uint64_eq]; full_bridge)
 theorem uint_rtruediv (a b : Int) : Gen.UintType.rtruediv a b = rtruediv a b := by
-  simp [Gen.UintType.rtruediv, rtruediv, wrap, uint64_eq, bind_assoc]
-  bridge_finish
+  first
+    | (simp [Gen.UintType.rtruediv, rtruediv, wrap, uint64_eq, bind_assoc]; bridge_finish; done)
+    | (simp only [Gen.UintType.rtruediv, rtruediv, wrap, int64_eq, uint64_eq]; full_bridge)
 theorem uint_rmod (a b : Int) : Gen.UintType.rmod a b = rmod a b := by
-  simp [Gen.UintType.rmod, rmod, wrap, uint64_eq, bind_assoc]
-  bridge_finish
+  first
+    | (simp [Gen.UintType.rmod, rmod, wrap, uint64_eq, bind_assoc]; bridge_finish; done)
+    | (simp only [Gen.UintType.rmod, rmod, wrap, int64_eq, uint64_eq]; full_bridge)
 end Uint
 
 /-- the aliases `__floordiv__ = __truediv__` present in the source (so `//` cannot bypass the checks) -/
